@@ -99,12 +99,7 @@ Location locate_hunk(const std::vector<Line>& content, const Hunk& hunk, bool ig
     // as in that case there is no content for us to even match against in the
     // first place!
     //
-    // Furthermore, we also should reject patches being added when the hunk is
-    // claiming the file is completely empty - but there are actually lines in
-    // that file.
     if (hunk.old_file_range.number_of_lines == 0) {
-        if (hunk.old_file_range.start_line == 0 && !content.empty())
-            return {};
         // Lines can only be inserted between lines which exist and have not been written out yet.
         if (offset_guess < min_line || static_cast<size_t>(offset_guess) > content.size())
             return {};
